@@ -215,6 +215,11 @@ class Controller(object):
             return self.send_error(mid, cid, msg, str(e), cast=cast,
                                    errno=errors.MESSAGE_ERROR)
         except ConflictError as e:
+            if cid is None and cmd_name.lower() == 'quit':
+                # a termination signal must not get lost because another
+                # command happens to be running: try again shortly
+                self.loop.call_later(0.1, self.dispatch, job)
+                return
             # conflicts between two commands, sending error...
             return self.send_error(mid, cid, msg, str(e), cast=cast,
                                    errno=errors.COMMAND_ERROR)
